@@ -370,6 +370,9 @@ func (m *model) applyPush(o *op, ob *obs) *viol {
 			}
 			r.Val = value{K: kSlice, L: sliceUnion(r.Val.L, p.Values)}
 			km.cands = []kstate{{R: r}}
+			if s.Absent && len(r.Val.L) == 0 {
+				km.cands = []kstate{{Absent: true}, {R: r}} // nothing pushed: key created empty or not
+			}
 			km.prov, km.reloaded = "Uint32SlicePush:"+prev, false
 		}
 	}
@@ -459,6 +462,11 @@ func (m *model) applySliceSize(o *op, ob *obs) *viol {
 			if ob.Size != int64(len(s.R.Val.L)) {
 				return nil, &viol{"Uint32SliceSize:size" + provSuffix(km), fmt.Sprintf("Uint32SliceSize(%s/%s)=%d, model holds %v", sm.cfg.Name, o.Key, ob.Size, s.R.Val.L)}
 			}
+		case s.R.Val.K == kVoid:
+			// void: "not a uint32 slice" (error) or an empty set (size 0) — not documented
+			if ob.Err == nil && ob.Size != 0 {
+				return nil, &viol{"Uint32SliceSize:size" + provSuffix(km), fmt.Sprintf("Uint32SliceSize(%s/%s)=%d on a void value", sm.cfg.Name, o.Key, ob.Size)}
+			}
 		default:
 			if ob.Err == nil {
 				return nil, &viol{fmt.Sprintf("Uint32SliceSize:type-mismatch:no-error:stored=%s%s", s.R.Val.K.sigClass(), provSuffix(km)), fmt.Sprintf("Uint32SliceSize(%s/%s) holding %s answered %d without error", sm.cfg.Name, o.Key, s.R.Val, ob.Size)}
@@ -505,7 +513,10 @@ func (m *model) applySliceIsValueExist(o *op, ob *obs) *viol {
 				return nil, &viol{fmt.Sprintf("Uint32SliceIsValueExist:membership:want=%v%s", want, provSuffix(km)), fmt.Sprintf("Uint32SliceIsValueExist(%s/%s,%d)=%v, model holds %v", sm.cfg.Name, o.Key, o.Val, ob.Bool, s.R.Val.L)}
 			}
 		case s.R.Val.K == kVoid:
-			// void: "type is invalid" or an empty set — not documented
+			// void: "type is invalid" (error) or an empty set (false) — not documented
+			if ob.Err == nil && ob.Bool {
+				return nil, &viol{"Uint32SliceIsValueExist:membership:want=false" + provSuffix(km), fmt.Sprintf("Uint32SliceIsValueExist(%s/%s,%d)=true on a void value", sm.cfg.Name, o.Key, o.Val)}
+			}
 		default:
 			if ob.Err == nil {
 				return nil, &viol{fmt.Sprintf("Uint32SliceIsValueExist:type-mismatch:no-error:stored=%s", s.R.Val.K.sigClass()), fmt.Sprintf("Uint32SliceIsValueExist(%s/%s) holding %s answered %v without error; documented: returns an error", sm.cfg.Name, o.Key, s.R.Val, ob.Bool)}
